@@ -15,9 +15,8 @@ REPLAY_KIND = 'history'
 EXHAUSTIVE = {'quick': False, 'thorough': False}
 RULE = ('seeded random histories of 5..40 operations (create / attribute assignment / multi-column set / syncUpdate / destroySelf / '
         'get with and without a cleared cache / select) over an eager and a lazyUpdate class, each with 0..6 listeners drawn from the six '
-        'row signals x {log, kwargs[c]=v, kwargs.pop(c), post_funcs.append}; four streams: valid (no ill-typed value, no assignment whose '
-        'receivers change the key set), failing (ill-typed values, missing required column, unknown/destroyed instances), keyset (assignments '
-        'whose receivers add/remove a key: the open findings), chain (0..8 listeners registered before/between/after the class statements of '
+        'row signals x {log, kwargs[c]=v, kwargs.pop(c), post_funcs.append}; streams: valid (no ill-typed value), failing (ill-typed values, missing required column, unknown/destroyed instances), keyset (assignments '
+        'whose receivers add/remove a key: delegated to set()), chain (0..8 listeners registered before/between/after the class statements of '
         'a three-level InheritableSQLObject chain, then creations at every level in random order, some of them failing). '
         'Non-trivial = at least one signal reached a listener and a row was written; distinct = distinct (listeners, operations).')
 EXPLANATION = ('Theorems C19_* (Coq, all listener tables and all histories) over Model/Events.v; correspondence: the model evaluated by '
@@ -168,11 +167,7 @@ def plain_case(rng, stream):
         if r < 0.45:
             c = rng.randrange(3)
             v = rand_val(rng, c, bad)
-            ok = keeps_key(tabs[k], c, v)
-            if stream == 'keyset' or ok:
-                ops.append(['assign', k, rid, c, v])
-            else:
-                ops.append(['set', k, rid, [[c, v]]])
+            ops.append(['assign', k, rid, c, v])
         elif r < 0.62:
             ops.append(['set', k, rid, rand_kw(rng, bad, need_a=False) if rng.random() < 0.93 else []])
         elif r < 0.74:
@@ -227,7 +222,7 @@ def chain_case(rng, failing):
 
 def corpus():
     return [
-        # witnesses of the open findings
+        # witnesses of the fixed findings assign_listener_changes_keyset / suppress_flag_left_set (480ba65)
         {'kind': 'plain', 'stream': 'keyset', 'lis': [[['update', ['set', 1, 'x']], ['updated', ['log']]], []],
          'ops': [['create', 0, [[0, 1]]], ['assign', 0, 1, 0, 5]]},
         {'kind': 'plain', 'stream': 'keyset', 'lis': [[['update', ['del', 0]]], []],
@@ -762,24 +757,6 @@ def _norm(tr):
     return json.loads(json.dumps(tr))
 
 
-def _known_plain(tabs, ops, outs, i, f):
-    """is the deviation f at step i one of the symptoms of an open finding?"""
-    op = ops[i]
-    seq = f['what'].startswith('event/write sequence')
-    if op[0] == 'assign' and not keeps_key(tabs[op[1]], op[3], op[4]):
-        # the dict is handed to set() and _SO_setValue carries on: second UPDATE + second after-event, or KeyError
-        if seq or (f['what'].startswith('an operation whose final arguments are valid raised') and f['actual'] == ['exn', 'keyerror']):
-            return 'assign_listener_changes_keyset'
-    if op[0] in ('assign', 'set'):
-        # the receivers are not consulted any more on an instance whose delegated set() raised earlier:
-        # no before-event, the caller's arguments are validated and stored instead of the rewritten ones
-        for j, prev in enumerate(ops[:i]):
-            if prev[0] == 'assign' and prev[1] == op[1] and prev[2] == op[2] and isinstance(outs[j], list) and outs[j][0] == 'exn' \
-                    and not keeps_key(tabs[op[1]], prev[3], prev[4]):
-                return 'suppress_flag_left_set'
-    return None
-
-
 def _effective(script):
     t = {0: [], 1: [], 2: []}
     for it in script:
@@ -793,7 +770,6 @@ def _effective(script):
 def oracle_plain(c, o):
     tabs = [list(enumerate(l)) for l in c['lis']]
     pre_tables, pre_handles = [[], []], [[], []]
-    first_known = None
     for i, (op, s) in enumerate(zip(c['ops'], o['steps'])):
         must, exp, exp_table = _expect_plain(tabs, op, pre_tables, pre_handles, s['tables'])
         out = s['out']
@@ -819,14 +795,11 @@ def oracle_plain(c, o):
         if f:
             f['step'] = i
             f['op'] = op
-            known = _known_plain(tabs, c['ops'], [x['out'] for x in o['steps']], i, f)
-            if known is None:
-                return f
-            if first_known is None:
-                f['known'] = known
-                first_known = f
+            return f
+        if any(h[2] for hs in s['handles'] for h in hs):
+            return {'what': 'row_update_sig_suppress is still set on an instance after the operation', 'step': i, 'op': op}
         pre_tables, pre_handles = s['tables'], s['handles']
-    return first_known
+    return None
 
 
 def oracle_chain(c, o):
@@ -903,7 +876,8 @@ def oracle(c, o):
 
 
 def classify(c, o, f):
-    return f.get('known')
+    # no open finding: assign_listener_changes_keyset and suppress_flag_left_set are fixed (480ba65)
+    return None
 
 
 def nontrivial(c, o):
